@@ -331,7 +331,9 @@ pub fn run(cx: &mut Cx) {
                 // ten and thirty times as many groups side by side (only this
                 // shape: the reference counts expansions by recursing on depth)
                 for big in [g * 10, g * 30, g * 100] {
-                    if big > 10_000 {
+                    // (the overflow-checking debug build has larger frames and a
+                    // slower reference: 3 000 groups are past its threshold)
+                    if big > 10_000 || (cx.tier == Tier::Small && big > 3_000) {
                         continue;
                     }
                     let p = format!("{}-1.0", "{a}".repeat(big));
